@@ -338,7 +338,7 @@ def download_templates(ctx):
 # ------------------------------------------------------------------ server independence (C02 d)
 def buffer_stride(ctx):
     m = ctx.m
-    P = ['C02', 'C01']
+    P = ['C02', 'C03', 'C01']
     f = 'COSdoReset'
     m.need(f)
     offs = {}
@@ -399,11 +399,11 @@ TRANSFER = [('CO_SDO_SEG', 'Size'), ('CO_SDO_SEG', 'Num'), ('CO_SDO_SEG', 'TBit'
             ('CO_SDO_BLK', 'Size'), ('CO_SDO_BLK', 'Len'), ('CO_SDO_BLK', 'SegNum'), ('CO_SDO_BLK', 'SegCnt'),
             ('CO_SDO_BLK', 'SegOk'), ('CO_SDO_BLK', 'LastValid'), ('CO_SDO_BUF', 'Cur'), ('CO_SDO_BUF', 'Num')]
 KINDS = [
-    ('segmented upload', 'COSdoInitUploadSegmented', {'call:COObjRdBufStart': 0}, ['COSdoUploadSegmented'], ['C03', 'C05']),
-    ('segmented download', 'COSdoInitDownloadSegmented', {'call:COSdoGetSize': 20, 'call:COObjWrBufStart': 0}, ['COSdoDownloadSegmented'], ['C02', 'C05']),
-    ('block download', 'COSdoInitDownloadBlock', {'call:COSdoGetSize': 20, 'call:COObjWrBufStart': 0}, ['COSdoDownloadBlock', 'COSdoEndDownloadBlock'], ['C02', 'C05']),
+    ('segmented upload', 'COSdoInitUploadSegmented', {'call:COObjRdBufStart': 0}, ['COSdoUploadSegmented'], ['C03', 'C04', 'C05']),
+    ('segmented download', 'COSdoInitDownloadSegmented', {'call:COSdoGetSize': 20, 'call:COObjWrBufStart': 0}, ['COSdoDownloadSegmented'], ['C02', 'C04', 'C05']),
+    ('block download', 'COSdoInitDownloadBlock', {'call:COSdoGetSize': 20, 'call:COObjWrBufStart': 0}, ['COSdoDownloadBlock', 'COSdoEndDownloadBlock'], ['C02', 'C04', 'C05']),
     ('block upload', 'COSdoInitUploadBlock', {'call:COSdoGetObject': 0, 'call:COSdoGetSize': 20, 'srv->Frm->Data[4]': 10, 'call:COObjRdBufStart': 0},
-     ['COSdoUploadBlock'], ['C03', 'C05']),
+     ['COSdoUploadBlock'], ['C03', 'C04', 'C05']),
 ]
 
 
